@@ -124,6 +124,9 @@ pub struct Sh {
 	events: RefCell<Vec<String>>,
 	pub stats: RefCell<Stats>,
 	max_horizon: Cell<u64>,
+	/// after a restore (until the next reopen): a horizon may not lie beyond the highest
+	/// sequence number allocated in the restored timeline
+	ahead_check: Cell<bool>,
 	gates: RefCell<Vec<(&'static str, Waker)>>,
 	free_run: Cell<bool>,
 	txn_counter: Cell<u64>,
@@ -264,6 +267,7 @@ impl Sh {
 			events: RefCell::new(Vec::new()),
 			stats: RefCell::new(Stats::default()),
 			max_horizon: Cell::new(0),
+			ahead_check: Cell::new(false),
 			gates: RefCell::new(Vec::new()),
 			free_run: Cell::new(false),
 			txn_counter: Cell::new(0),
@@ -732,6 +736,7 @@ impl Sh {
 						}
 					}
 					self.stats.borrow_mut().reopens += 1;
+					self.ahead_check.set(false);
 					if let Err(e) = self.open() {
 						self.fail("reopen_failed", e);
 					}
@@ -763,7 +768,14 @@ impl Sh {
 				}
 				other => self.step_sync(other),
 			}
-			self.settle().await;
+			// "defer_spawned": work the store spawned onto the runtime during this step (e.g. the
+			// WAL clean-up a flush schedules) does not get its turn before a following restore /
+			// checkpoint / close: it then runs against the state those operations leave behind
+			let defer = self.plan.params.get("defer_spawned").copied().unwrap_or(0) == 1
+				&& matches!(steps.get(i + 1), Some(Step::Restore | Step::Checkpoint | Step::Reopen | Step::Close));
+			if !defer {
+				self.settle().await;
+			}
 		}
 	}
 
@@ -974,6 +986,7 @@ impl Sh {
 			Ok(_) => {
 				*self.model.borrow_mut() = cm;
 				self.max_horizon.set(0);
+				self.ahead_check.set(true);
 				self.ev("restore".into());
 			}
 			Err(e) => self.fail("restore_failed", e.to_string()),
@@ -1065,6 +1078,16 @@ impl Sh {
 		if h < floor.1 {
 			self.fail("horizon_backwards", format!("{}: horizon {} after a horizon {} was handed out", who, h, floor.1));
 			return;
+		}
+		if self.ahead_check.get() {
+			let allocated = m.commits.iter().map(|c| c.last_seq).max().unwrap_or(0);
+			if h > allocated {
+				self.fail(
+					"horizon_ahead",
+					format!("{}: after the restore a transaction began at horizon {} although the restored timeline has only allocated sequence numbers up to {}: it will see commits made after it began", who, h, allocated),
+				);
+				return;
+			}
 		}
 		if h > self.max_horizon.get() {
 			self.max_horizon.set(h);
@@ -1777,6 +1800,10 @@ impl Sh {
 				return;
 			}
 		};
+		if self.plan.params.get("history_unjudged").copied().unwrap_or(0) == 1 {
+			// run for its side effects (cache contents) only
+			return;
+		}
 		if rev {
 			got.reverse();
 		}
